@@ -367,6 +367,19 @@ pub fn c05(seed: u64, thorough: bool, tw: &mut TraceWriter) -> Cov {
                 let cseed: u64 = master.random();
                 let Some(mut sim) = formed(n, &cfg, Policy::Next, cseed, lat, run, "c05", json!({"groups": groups.clone()}), tw) else { continue };
                 run += 1;
+                // in half of the runs some members have already refuted a suspicion (incarnation > 0)
+                if master.random_range(0..2) == 0 {
+                    for _ in 0..master.random_range(1..=n) {
+                        let v = master.random_range(0..n);
+                        let a = (v + 1 + master.random_range(0..n - 1)) % n;
+                        let vid = sim.id_of(v);
+                        sim.call(a, Call::ApplyMany(vec![Member::new(vid, 0, State::Suspect)], true));
+                        let t = sim.now + cfg.period;
+                        sim.run_until(t);
+                    }
+                    let t = sim.now + 2 * cfg.period;
+                    sim.run_until(t);
+                }
                 sim.partition(groups.clone());
                 let dur = (2 * n as u64 + 3) * cfg.period + cfg.s2d + cfg.period;
                 let t = sim.now + dur;
